@@ -562,8 +562,14 @@ class Sim:
                     cands.append(j)
             fresh = [j for j in cands if not j.parts[0]['ready_proc'] and
                      j.obs is None and not j.soft_sent]
-            if fresh:
+            if fresh and all(j.h.ready() for j in fresh):
+                # resolved earlier in this very scan (hard limit): no soft
+                # signal may be sent on its behalf any more
+                self.viol({'C06'}, 'soft_signal_for_job_already_resolved',
+                          job=fresh[0].jid)
                 fresh[0].soft_sent += 1
+            elif fresh:
+                [j for j in fresh if not j.h.ready()][0].soft_sent += 1
             elif [j for j in cands if not j.parts[0]['ready_proc'] and j.obs is None]:
                 j = [j for j in cands if not j.parts[0]['ready_proc'] and j.obs is None][0]
                 j.soft_sent += 1
@@ -1099,6 +1105,7 @@ class Sim:
                 if w is not None and w.alive:
                     must_soft.append(j)
         sig_before = len(self.signals)
+        cb_before = {j.jid: len(j.cb['timeout']) for j in self.jobs.values()}
         try:
             th.handle_event()
         except HarnessError:
@@ -1117,6 +1124,12 @@ class Sim:
                         if j.kind == 'apply' and j.t_acc is not None and j.hard
                         and now >= j.t_acc + j.hard}
             must_tle = [j for j in must_tle if j.obs is None or j.obs[0] == 'tle']
+        for j in self.jobs.values():
+            new_cbs = j.cb['timeout'][cb_before.get(j.jid, 0):]
+            if any(c[0] is True for c in new_cbs) and j.kind == 'apply' and j.hard and \
+                    j.t_acc is not None and now >= j.t_acc + j.hard and j.h.ready():
+                self.viol({'C06'}, 'soft_timeout_handling_for_job_failed_by_hard_limit',
+                          job=j.jid, callbacks=new_cbs)
         self.log('p_scan', 'must_tle=%s' % [j.jid for j in must_tle],
                  'must_soft=%s' % [j.jid for j in must_soft])
         self.stat('scans')
